@@ -15,7 +15,8 @@ From Coq Require Import List NArith Bool.
 Import ListNotations.
 Require Import Verif.Lib.Wire Verif.Lib.Text Verif.Lib.PathNorm Verif.Lib.Utf8 Verif.Lib.Percent Verif.Lib.C07Types
                Verif.Gen.Facts_C02 Verif.Gen.Facts_C07 Verif.Model.C02 Verif.Model.C07
-               Verif.Proofs.C02_memo Verif.Proofs.C07_rt Verif.Proofs.C07 Verif.Proofs.C07_hist Verif.Proofs.C07_c17.
+               Verif.Proofs.C02_memo Verif.Proofs.C07_rt Verif.Proofs.C07 Verif.Proofs.C07_hist Verif.Proofs.C07_c17
+               Verif.Gen.Code_C07 Verif.Proofs.C07_gen.
 Require Verif.Model.C17.
 
 (* the regenerated facts are the ones the proofs were written against (in
@@ -259,3 +260,95 @@ Theorem C07_script_name_is_c17 : forall e sn d,
   exists t, quoted_script_name sn = Val t /\ Verif.Model.C17.quoted_script_name e = Verif.Model.C17.Ok t.
 Proof. exact quoted_script_name_is_c17. Qed.
 Print Assumptions C07_script_name_is_c17.
+
+(* ================================================================== regenerated code = reference model
+   gen_* (Gen/Code_C07.v) are written by harness/c07/translate.py from the CURRENT source on every run. *)
+Theorem C07_generated_lineage_is_model : forall root p, gen_lineage root p = lineage_pos p.
+Proof. exact generated_lineage_is_model. Qed.
+Print Assumptions C07_generated_lineage_is_model.
+
+Theorem C07_generated_inside_is_model : forall root r1 r2, gen_inside root r1 r2 = pos_prefixb r2 r1.
+Proof. exact generated_inside_is_model. Qed.
+Print Assumptions C07_generated_inside_is_model.
+
+Theorem C07_generated_resource_path_list_is_model : forall root r names els, names_at root r = Some names ->
+  gen_resource_path_list root r els = resource_path_list names els.
+Proof. exact generated_resource_path_list_is_model. Qed.
+Print Assumptions C07_generated_resource_path_list_is_model.
+
+Theorem C07_generated_resource_path_tuple_is_model : forall root r names els, names_at root r = Some names ->
+  Val (gen_resource_path_tuple root r els) = resource_path_tuple root r els.
+Proof. exact generated_resource_path_tuple_is_model. Qed.
+Print Assumptions C07_generated_resource_path_tuple_is_model.
+
+Theorem C07_generated_quote_path_segment_is_model : forall root seg safe,
+  gen_quote_path_segment root seg safe = lift (quote_path_segment_safe seg safe).
+Proof. exact generated_quote_path_segment_is_model. Qed.
+Print Assumptions C07_generated_quote_path_segment_is_model.
+
+Theorem C07_generated_join_path_tuple_is_model : forall root l, gen_join_path_tuple root l = lift (join_path_tuple l).
+Proof. exact generated_join_path_tuple_is_model. Qed.
+Print Assumptions C07_generated_join_path_tuple_is_model.
+
+Theorem C07_generated_resource_path_is_model : forall root r names els, names_at root r = Some names ->
+  gen_resource_path root r els = resource_path root r els.
+Proof. exact generated_resource_path_is_model. Qed.
+Print Assumptions C07_generated_resource_path_is_model.
+
+Theorem C07_generated_find_root_is_model : forall root r, gen_find_root root r = [].
+Proof. exact generated_find_root_is_model. Qed.
+Print Assumptions C07_generated_find_root_is_model.
+
+Theorem C07_generated_traverse_str_is_model : forall root r n path, node_at root r = Some n ->
+  gen_traverse_str root r path = traverse7 root r (PStr path).
+Proof. exact generated_traverse_str_is_model. Qed.
+Print Assumptions C07_generated_traverse_str_is_model.
+
+Theorem C07_generated_traverse_tuple_is_model : forall root r n l, node_at root r = Some n ->
+  gen_traverse_tuple root r l = traverse7 root r (PTuple l).
+Proof. exact generated_traverse_tuple_is_model. Qed.
+Print Assumptions C07_generated_traverse_tuple_is_model.
+
+Theorem C07_generated_find_resource_str_is_model : forall root r n path, node_at root r = Some n ->
+  gen_find_resource_str root r path = find7 root r (PStr path).
+Proof. exact generated_find_resource_str_is_model. Qed.
+Print Assumptions C07_generated_find_resource_str_is_model.
+
+Theorem C07_generated_find_resource_tuple_is_model : forall root r n l, node_at root r = Some n ->
+  gen_find_resource_tuple root r l = find7 root r (PTuple l).
+Proof. exact generated_find_resource_tuple_is_model. Qed.
+Print Assumptions C07_generated_find_resource_tuple_is_model.
+
+Theorem C07_generated_virtual_root_is_model : forall root r n vroot, node_at root r = Some n ->
+  gen_virtual_root root r vroot = virtual_root url_vroot_mode root r vroot.
+Proof. exact generated_virtual_root_is_model. Qed.
+Print Assumptions C07_generated_virtual_root_is_model.
+
+(* the property, restated about the regenerated functions *)
+Theorem C07_gen_find_path_tuple : forall root r a na names,
+  good_resource root r = Some names -> node_at root a = Some na ->
+  gen_find_resource_tuple root a (gen_resource_path_tuple root r []) = Val (FoundAt r).
+Proof. exact gen_find_path_tuple. Qed.
+Print Assumptions C07_gen_find_path_tuple.
+
+Theorem C07_gen_find_path_string : forall root r a na names,
+  good_resource root r = Some names -> node_at root a = Some na ->
+  xbind (gen_resource_path root r []) (fun s => gen_find_resource_str root a s) = Val (FoundAt r).
+Proof. exact gen_find_path_string. Qed.
+Print Assumptions C07_gen_find_path_string.
+
+Theorem C07_gen_relative_absolute_agree_partial : forall root a r nr names_a rel,
+  good_resource root a = Some names_a -> node_at root r = Some nr ->
+  forallb admissible rel = true -> scheme_like rel = false ->
+  exists f, spec_lookup root a rel = Some f /\
+    gen_find_resource_tuple root a rel = Val f /\
+    gen_find_resource_tuple root r (gen_resource_path_tuple root a rel) = Val f.
+Proof. exact gen_relative_absolute_agree. Qed.
+Print Assumptions C07_gen_relative_absolute_agree_partial.
+
+Theorem C07_gen_virtual_root_inverts : forall root r names vroot vt v,
+  url_vroot_mode = UrlTupleCompare ->
+  good_resource root r = Some names -> header_segments vroot = Some vt -> inside root vt r = Some v ->
+  gen_virtual_root root r vroot = Val (FoundAt v).
+Proof. exact gen_virtual_root_inverts. Qed.
+Print Assumptions C07_gen_virtual_root_inverts.
